@@ -247,7 +247,7 @@ def run_recipe(ctx: Optional[Ctx], recipe: Dict[str, Any], cid: str) -> Case:
 # ---------------------------------------------------------------------------------------------------------
 # generators (pure: recipes only; the real code runs in run_recipe)
 
-UDNS = ["uuid:aaaaaaaa-0000-0000-0000-000000000001", "uuid:bbbbbbbb-0000-0000-0000-000000000002", "UUID:cccc-3"]
+UDNS = ["uuid:aaaaaaaa-0000-0000-0000-000000000001", "uuid:bbbbbbbb-0000-0000-0000-000000000002", "UUID:cccc-3", "uuid:d:e-4"]
 TYPES = ["upnp:rootdevice", "urn:schemas-upnp-org:device:MediaServer:1", "urn:schemas-upnp-org:service:ContentDirectory:1"]
 ADDR4 = ["192.168.1.10", 1900]
 ADDR4B = ["192.168.1.11", 1900]
@@ -265,7 +265,8 @@ GOOD_LOCS = [
 BAD_LOCS = ["http://127.0.0.1:80/d", "http://[::1]:80/d", "http://169.254.7.7/d", "ftp://192.168.1.10/d", "", "xhttp://192.168.1.10/",
             "HTTP://192.168.1.10/"]
 CACHE = [None, "max-age=1", "max-age=5", "max-age=1800", "max-age = 5", "MAX-AGE=7", "no-cache", "max-age=0",
-         "public, max-age=30", "max-age=", "xmax-age=4, max-age=9"]
+         "public, max-age=30", "max-age=", "xmax-age=4, max-age=9", "max-age=007", "max-age=12abc", "Max-Age \t= \t3, x",
+         "no-store, MAX-AGE=2;q", "m=1, ma=2, max-age-x=3"]
 GAPS_S = [0, 0, 1, 1, 4, 6, 2000, -1, 899, 900, 901, 5, 7, 30, 1799, 1801, -5]
 EXTRA = [
     [], [["BOOTID.UPNP.ORG", "1"]], [["BOOTID.UPNP.ORG", "2"]], [["Bootid.upnp.org", "1"]], [["bootid.upnp.org", "2"]],
